@@ -8,7 +8,7 @@ GEN = []
 MODEL_IS_SPEC = False
 RULE = ("(a) small JSON values (<= 7 nodes, object/array mixes, scalars and empty containers): EVERY outcome of the random choices of the descendant traversal is enumerated on the real code "
         "(random.randrange / random.shuffle replaced by an enumerating chooser); each outcome is compared, script by script, with the choice-script model, checked against the Coq "
-        "predicate valid_order, and the SET of outcomes is compared with the Coq enumeration of all valid orders (exhaustiveness); (b) random queries x values in nondeterministic mode with "
+        "predicate valid_order, every outcome must be in the Coq enumeration of all valid orders, and the set of container orders produced must equal the set of container orders of that enumeration (exhaustiveness: scalars are visited as soon as their turn comes, which cannot change any result); (b) random queries x values in nondeterministic mode with "
         "random seeds: the result must be a permutation of the deterministic RFC nodelist; non-trivial = value has an object with >= 2 members or nested containers; distinct = distinct (value, script)")
 TRUSTED_BASE = [
     "Coq 8.16.1 kernel; theorems closed under the global context",
@@ -66,7 +66,7 @@ def cases(ctx, budget):
             cnt += 1
             if out[0] == 0:
                 enc = [0] + wire.enc_list(lambda l: wire.enc_list(wire.enc_key, list(l)), out[1])
-                outcomes.add(tuple(enc[1:]))
+                outcomes.add(tuple(tuple(l) for l in out[1]))
             else:
                 enc = out
             if cnt <= 400 or rng.random() < 0.05:
@@ -74,19 +74,34 @@ def cases(ctx, budget):
                            count_nodes(v) > 2, "script")
         if cnt >= cap: full = False
 
-        def chk(impl_out, spec, outcomes=outcomes, full=full):
-            # spec: n, then n orders each (len, locs...) -- compare as sets of encoded orders
+        def chk(impl_out, spec, outcomes=outcomes, full=full, v=v):
+            # spec: n orders, each a list of locations.  Decode to tuples of location tuples.
             pos = 1; orders = set()
             for _ in range(spec[0]):
-                start = pos; m = spec[pos]; pos += 1
+                m = spec[pos]; pos += 1
+                order = []
                 for _ in range(m):
                     k = spec[pos]; pos += 1
+                    loc = []
                     for _ in range(k):
-                        if spec[pos] == 0: pos += 2 + spec[pos + 1]
-                        else: pos += 2
-                orders.add(tuple(spec[start:pos]))
-            if not outcomes <= orders: return "an outcome of the random choices is not a valid order: %r" % (sorted(outcomes - orders)[:1],)
-            if full and orders != outcomes: return "a valid order is never produced (%d of %d)" % (len(outcomes), len(orders))
+                        if spec[pos] == 0:
+                            n = spec[pos + 1]; loc.append("".join(chr(c) for c in spec[pos + 2:pos + 2 + n])); pos += 2 + n
+                        else:
+                            loc.append(spec[pos + 1]); pos += 2
+                    order.append(tuple(loc))
+                orders.add(tuple(order))
+            got = set(outcomes)
+            if not got <= orders: return "an outcome of the random choices is not a valid order: %r" % (sorted(got - orders)[:1],)
+
+            def containers(order):
+                def at(loc):
+                    x = v
+                    for kk in loc: x = x[kk]
+                    return x
+                return tuple(l for l in order if isinstance(at(l), (list, dict)))
+            # scalars are visited as soon as their turn comes (nothing can be selected from them): exhaustiveness is about containers
+            if full and {containers(o) for o in orders} != {containers(o) for o in got}:
+                return "a valid order of the containers is never produced (%d of %d)" % (len({containers(o) for o in got}), len({containers(o) for o in orders}))
             return None
         yield Case({"value": v, "outcomes": len(outcomes), "scripts": cnt, "enumeration_complete": full}, None, [len(outcomes)], [117] + wire.enc_json(v), None,
                    count_nodes(v) > 2, "outcome-set", True, chk)
